@@ -53,13 +53,17 @@ Inductive expr :=
 | EVar (x : ident)
 | EAdd (a b : expr)
 | ESub (a b : expr)
-| EMul (a b : expr).
+| EMul (a b : expr)
+| EDivC (a : expr) (q : Q)       (* a / q with a constant divisor; q = 0 cannot be evaluated *)
+| EMin (a b : expr)
+| EMax (a b : expr).
 
 Fixpoint free_vars (e : expr) : list ident :=
   match e with
   | EConst _ => []
   | EVar x => [x]
-  | EAdd a b | ESub a b | EMul a b => free_vars a ++ free_vars b
+  | EAdd a b | ESub a b | EMul a b | EMin a b | EMax a b => free_vars a ++ free_vars b
+  | EDivC a _ => free_vars a
   end.
 
 (* Expression.variables: each free variable once *)
@@ -72,7 +76,30 @@ Fixpoint eval (env : ident -> option Q) (e : expr) : option Q :=
   | EAdd a b => match eval env a, eval env b with Some u, Some v => Some (u + v)%Q | _, _ => None end
   | ESub a b => match eval env a, eval env b with Some u, Some v => Some (u - v)%Q | _, _ => None end
   | EMul a b => match eval env a, eval env b with Some u, Some v => Some (u * v)%Q | _, _ => None end
+  | EDivC a q => if Qeq_bool q 0 then None
+                 else match eval env a with Some u => Some (u / q)%Q | None => None end
+  | EMin a b => match eval env a, eval env b with
+                | Some u, Some v => Some (if Qle_bool u v then u else v) | _, _ => None end
+  | EMax a b => match eval env a, eval env b with
+                | Some u, Some v => Some (if Qle_bool u v then v else u) | _, _ => None end
   end.
+
+(* Expression.evaluate_symbolic: simultaneous substitution (qupulse.utils.sympy.recursive_substitution walks the
+   tree once; variables without a substitute stay) *)
+Fixpoint subst (sg : ident -> option expr) (e : expr) : expr :=
+  match e with
+  | EConst q => EConst q
+  | EVar x => match sg x with Some r => r | None => EVar x end
+  | EAdd a b => EAdd (subst sg a) (subst sg b)
+  | ESub a b => ESub (subst sg a) (subst sg b)
+  | EMul a b => EMul (subst sg a) (subst sg b)
+  | EDivC a q => EDivC (subst sg a) q
+  | EMin a b => EMin (subst sg a) (subst sg b)
+  | EMax a b => EMax (subst sg a) (subst sg b)
+  end.
+
+Definition remove_key {A} (x : ident) (d : list (ident * A)) : list (ident * A) :=
+  filter (fun kv => negb (N.eqb (fst kv) x)) d.
 
 (* ---------------------------------------------------------------- scopes *)
 Inductive scope :=
@@ -83,8 +110,8 @@ Inductive scope :=
 
 (* memoisation fields of one scope object and of the objects below it (kids: the outer/inner scope, or the
    entries of a joint scope in order).  A missing kid is a fresh object. *)
-Inductive cst := CNode (cache : list (ident * Q)) (asd : option (list (ident * Q))) (vc : option (list ident))
-                       (kids : list cst).
+Inductive cst := CNode (cache : list (ident * Q)) (asd : option (list (ident * Q)))
+                       (vc : option (list (ident * expr))) (kids : list cst).
 
 Definition cempty : cst := CNode [] None None [].
 Definition c_cache (c : cst) := match c with CNode a _ _ _ => a end.
@@ -94,7 +121,7 @@ Definition c_kids (c : cst) := match c with CNode _ _ _ a => a end.
 Definition kid0 (c : cst) : cst := hd cempty (c_kids c).
 Definition set_kid0 (c : cst) (k : cst) : cst := CNode (c_cache c) (c_asd c) (c_vc c) (k :: tl (c_kids c)).
 Definition set_kids (c : cst) (ks : list cst) : cst := CNode (c_cache c) (c_asd c) (c_vc c) ks.
-Definition set_vc (c : cst) (ks : list ident) : cst := CNode (c_cache c) (c_asd c) (Some ks) (c_kids c).
+Definition set_vc (c : cst) (ks : list (ident * expr)) : cst := CNode (c_cache c) (c_asd c) (Some ks) (c_kids c).
 
 (* successive lookups through one getter, threading the cache state; stops at the first exception *)
 Fixpoint fold_get (g : cst -> ident -> result Q * cst) (xs : list ident) (c : cst) (acc : list (ident * Q))
@@ -236,56 +263,72 @@ Definition items (s : scope) (c : cst) : result (list (ident * Q)) * cst :=
   | _ => as_dict s c
   end.
 
-(* MappedScope._collect_volatile_parameters: the loop over the mapping, `acc` = keys of the dict `volatile` *)
-Fixpoint collect (g : cst -> ident -> result Q * cst) (iv : list ident) (m : list (ident * expr)) (c : cst)
-         (acc : list ident) : result (list ident) * cst :=
+(* the substitution built in MappedScope._collect_volatile_parameters for one mapping expression: a variable that is
+   volatile in the outer scope is replaced by its dependency expression, every other variable by its VALUE in the
+   outer scope (`env` = the values looked up for those variables) *)
+Definition vol_subst (iv : list (ident * expr)) (env : list (ident * Q)) (y : ident) : option expr :=
+  match lookup iv y with
+  | Some r => Some r
+  | None => match lookup env y with Some v => Some (EConst v) | None => None end
+  end.
+
+(* MappedScope._collect_volatile_parameters: the loop over the mapping; `acc` = the dict `volatile`
+   (name -> dependency expression), `g` = the lookup `self._scope[variable]` threading the cache state *)
+Fixpoint collect (g : cst -> ident -> result Q * cst) (iv : list (ident * expr)) (m : list (ident * expr)) (c : cst)
+         (acc : list (ident * expr)) : result (list (ident * expr)) * cst :=
   match m with
   | [] => (Ok acc, c)
   | (p, e) :: m' =>
-      if existsb (fun y => mem y iv) (vars e) then
-        (* non-volatile variables are looked up through self[variable] *)
-        let '(r, c') := fold_get g (filter (fun y => negb (mem y iv)) (vars e)) c [] in
+      if existsb (fun y => is_some (lookup iv y)) (vars e) then
+        let '(r, c') := fold_get g (filter (fun y => negb (is_some (lookup iv y))) (vars e)) c [] in
         match r with
-        | Ok _ => collect g iv m' c' (if mem p acc then acc else acc ++ [p])
+        | Ok env => collect g iv m' c' (dict_set acc p (subst (vol_subst iv env) e))   (* volatile[p] = ... *)
         | Err er => (Err er, c')
         end
-      else collect g iv m' c (removeN p acc)
+      else collect g iv m' c (remove_key p acc)                                          (* volatile.pop(p, None) *)
   end.
 
-(* get_volatile_parameters().keys() *)
-Fixpoint vol (s : scope) (c : cst) {struct s} : result (list ident) * cst :=
+(* self._scope[variable] seen from the MappedScope object (its cache state is the one threaded) *)
+Definition get_outer (o : scope) (c : cst) (y : ident) : result Q * cst :=
+  let '(r, co) := get o (kid0 c) y in (r, set_kid0 c co).
+
+(* get_volatile_parameters(): name -> dependency expression over the volatile constants *)
+Fixpoint volx (s : scope) (c : cst) {struct s} : result (list (ident * expr)) * cst :=
   match s with
-  | SDict _ vl => (Ok (nodupN vl), c)
+  | SDict _ vl => (Ok (map (fun v => (v, EVar v)) (nodupN vl)), c)
   | SMapped o m =>
       match c_vc c with
       | Some ks => (Ok ks, c)
       | None =>
-          let '(riv, co) := vol o (kid0 c) in
+          let '(riv, co) := volx o (kid0 c) in
           let c1 := set_kid0 c co in
           match riv with
           | Err e => (Err e, c1)
           | Ok [] => (Ok [], set_vc c1 [])
           | Ok iv =>
-              let '(r, c2) := collect (get (SMapped o m)) iv m c1 iv in
+              let '(r, c2) := collect (get_outer o) iv m c1 iv in
               match r with
               | Ok ks => (Ok ks, set_vc c2 ks)
               | Err e => (Err e, c2)
               end
           end
       end
-  | SRange i n _ => let '(r, ci) := vol i (kid0 c) in (rmap (removeN n) r, set_kid0 c ci)
+  | SRange i n _ => let '(r, ci) := volx i (kid0 c) in (rmap (remove_key n) r, set_kid0 c ci)
   | SJoint l =>
       match c_vc c with
       | Some ks => (Ok ks, c)
       | None =>
           let '(r, ks) :=
-            (fix go (l : list (ident * scope)) (ks : list cst) (acc : list ident) : result (list ident) * list cst :=
+            (fix go (l : list (ident * scope)) (ks : list cst) (acc : list (ident * expr))
+               : result (list (ident * expr)) * list cst :=
                match l with
                | [] => (Ok acc, ks)
                | (x, sub) :: l' =>
-                   let '(r, k') := vol sub (hd cempty ks) in
+                   let '(r, k') := volx sub (hd cempty ks) in
                    match r with
-                   | Ok iv => let '(r2, ks2) := go l' (tl ks) (if mem x iv then acc ++ [x] else acc) in
+                   | Ok iv => let '(r2, ks2) := go l' (tl ks) (match lookup iv x with
+                                                                | Some e => dict_set acc x e
+                                                                | None => acc end) in
                               (r2, k' :: ks2)
                    | Err e => (Err e, k' :: tl ks)
                    end
@@ -296,6 +339,10 @@ Fixpoint vol (s : scope) (c : cst) {struct s} : result (list ident) * cst :=
           end
       end
   end.
+
+(* get_volatile_parameters().keys() *)
+Definition vol (s : scope) (c : cst) : result (list ident) * cst :=
+  let '(r, c') := volx s c in (rmap (map fst) r, c').
 
 (* change_constants: new structure, new cache state, `same` (= the very same object is returned, caches kept),
    `warned` (= a NonVolatileChange warning was issued) *)
@@ -338,7 +385,9 @@ Fixpoint expr_eqb (a b : expr) : bool :=
   match a, b with
   | EConst p, EConst q => Qeq_bool p q
   | EVar x, EVar y => N.eqb x y
-  | EAdd a1 a2, EAdd b1 b2 | ESub a1 a2, ESub b1 b2 | EMul a1 a2, EMul b1 b2 => expr_eqb a1 b1 && expr_eqb a2 b2
+  | EAdd a1 a2, EAdd b1 b2 | ESub a1 a2, ESub b1 b2 | EMul a1 a2, EMul b1 b2
+  | EMin a1 a2, EMin b1 b2 | EMax a1 a2, EMax b1 b2 => expr_eqb a1 b1 && expr_eqb a2 b2
+  | EDivC a1 p, EDivC b1 q => expr_eqb a1 b1 && Qeq_bool p q
   | _, _ => false
   end.
 
@@ -368,7 +417,9 @@ Fixpoint scope_eqb (a b : scope) {struct a} : bool :=
 Inductive op :=
 | OGet (x : ident) | OContains (x : ident) | OIter | OLen | OKeys | OItems | OAsDict | OVol
 | OChange (nc : list (ident * Q))
-| OEq (other : scope).
+| OEq (other : scope)
+| OVolX (envs : list (list (ident * Q))).   (* get_volatile_parameters(), every dependency expression evaluated in
+                                              each of the given environments of constants *)
 
 Inductive obs :=
 | BVal (r : result Q)
@@ -377,7 +428,11 @@ Inductive obs :=
 | BLen (r : result Z)
 | BItems (r : result (list (ident * Q)))
 | BChange (warned : bool) (eq_rebuilt : bool) (hash_eq : bool)
-| BEq (eq : bool) (hash_eq : bool).
+| BEq (eq : bool) (hash_eq : bool)
+| BVolX (r : result (list (ident * list (option Q)))).
+
+Definition eval_at (envs : list (list (ident * Q))) (ve : list (ident * expr)) : list (ident * list (option Q)) :=
+  map (fun xe => (fst xe, map (fun env => eval (lookup env) (snd xe)) envs)) ve.
 
 (* the scope built from the changed constants *)
 Fixpoint rebuild (s : scope) (nc : list (ident * Q)) : scope :=
@@ -402,6 +457,7 @@ Definition step (st : scope * cst) (o : op) : obs * (scope * cst) :=
   | OChange nc => let r := cc s c nc in
                   (BChange (ch_warned r) (scope_eqb (ch_scope r) (rebuild s nc)) true, (ch_scope r, ch_cst r))
   | OEq other => (BEq (scope_eqb s other) (scope_eqb s other), st)
+  | OVolX envs => let '(r, c') := volx s c in (BVolX (rmap (eval_at envs) r), (s, c'))
   end.
 
 Fixpoint run (st : scope * cst) (ops : list op) : list obs :=
